@@ -19,10 +19,8 @@ for i in range(n):
             print("   OP ", l[:300]); print("   IMPL", a[:700]); print("   MODL", (b or "")[:700])
     cr=[c for c in tr.chunk_results if not c[3]]
     if cr: print("CHUNK MISMATCH", variant, seed0+i, cr[:3])
-    v=monitors.View(tr)
-    for pid, ms in monitors.MONITORS.items():
-        for m in ms:
-            for (idx,msg) in m(v)[:2]:
-                print("VIOL", pid, variant, seed0+i, idx, msg)
+    for pid, found in monitors.run_all(tr).items():
+        for (idx,msg) in found[:2]:
+            print("VIOL", pid, variant, seed0+i, idx, msg)
     if bad>=int(sys.argv[5]) if len(sys.argv)>5 else bad>=2: break
 print(prof, variant, "traces", i+1, "ops", ops, "bad", bad, "chunkruns", len(tr.chunk_results), "time %.1f"%(time.time()-t0))
